@@ -533,6 +533,13 @@ fn equiv_case(idx: usize, spec: &[ModeSpec], cache: &TableCache, rcache: &RefCac
     }
     if ok && reg.keys.len() == dump.classes.len() {
         body.push_str(&clines);
+        for (m, mode) in spec.iter().enumerate() {
+            for p in &mode.patterns {
+                if let Some((pos, _)) = &p.lookahead {
+                    let _ = writeln!(body, "lapol {} {} {}", m, p.tid, *pos as u8);
+                }
+            }
+        }
         let mut li = 0;
         for (m, mode) in spec.iter().enumerate() {
             if let Some((pre, _)) = minlog.get(li) {
@@ -552,6 +559,14 @@ fn equiv_case(idx: usize, spec: &[ModeSpec], cache: &TableCache, rcache: &RefCac
                     }
                     li += 1;
                 }
+            }
+            // token types unique within the mode (F2): the whole compiled mode at once
+            let mut tids: Vec<usize> = mode.patterns.iter().map(|p| p.tid).collect();
+            tids.sort();
+            tids.dedup();
+            if tids.len() == mode.patterns.len() {
+                let _ = writeln!(body, "compilefull {}\nexpect compile done", m);
+                st.count("compiler_model_checks", 1);
             }
         }
     } else {
@@ -2039,7 +2054,90 @@ fn c17(seed: u64, n: usize, cache: &TableCache, rcache: &RefCache, out: &mut Str
         idx += 1;
         let (ks, words) = keyword_spec(11500, 6, seed);
         c17_case(idx, &ks, &keyword_inputs(&words, 11500, seed), false, false, 400000, cache, rcache, out, st);
+        idx += 1;
         st.count("large_builds", 2);
+        if n >= 1000 {
+            // more than 2^16 token types (one partition group per token type in the minimizer)
+            c17_many_token_types(idx, 65_600, seed, out, st);
+            st.count("large_builds", 1);
+        }
+    }
+}
+
+/// C17: `count` three-letter keywords over [0-9A-Za-z], every one with its own token type, no other
+/// pattern. The longest-match rule prescribes for a three-letter input: the keyword's token if it
+/// is a keyword, nothing otherwise. All 62^3 inputs are scanned.
+fn c17_many_token_types(idx: usize, count: usize, seed: u64, out: &mut String, st: &mut Stats) {
+    st.cases += 1;
+    let alphabet: Vec<char> = ('0'..='9').chain('A'..='Z').chain('a'..='z').collect();
+    let mut all: Vec<String> = Vec::with_capacity(62 * 62 * 62);
+    for a in &alphabet {
+        for b in &alphabet {
+            for c in &alphabet {
+                all.push([*a, *b, *c].iter().collect());
+            }
+        }
+    }
+    let mut order: Vec<usize> = (0..all.len()).collect();
+    let mut r = Rng::new(seed ^ 0xc17c17);
+    r.shuffle(&mut order);
+    // the first two keywords: "001" and (as keyword 65536) "aa0", as in the known aliasing pattern;
+    // the others in pseudo-random order
+    let pos = |w: &str| all.iter().position(|x| x == w).unwrap();
+    let (p0, p1) = (pos("001"), pos("aa0"));
+    order.retain(|i| *i != p0 && *i != p1);
+    order.insert(0, p0);
+    let at = 65_536.min(order.len());
+    order.insert(at, p1);
+    order.truncate(count);
+    let mut tid_of: Vec<Option<usize>> = vec![None; all.len()];
+    for (t, i) in order.iter().enumerate() {
+        tid_of[*i] = Some(t);
+    }
+    let mode = scnr::ScannerMode::new("K3", order.iter().enumerate().map(|(t, i)| scnr::Pattern::new(all[*i].clone(), t)), vec![]);
+    let t0 = std::time::Instant::now();
+    let built = catch_unwind(AssertUnwindSafe(|| ScannerBuilder::new().add_scanner_mode(mode).build_uncached()));
+    st.count("build_ms_total", t0.elapsed().as_millis() as usize);
+    let _ = writeln!(out, "case {}\nexpect case {}\n# {} three-letter keywords, one token type each", idx, idx, count);
+    let scanner = match built {
+        Err(_) => {
+            out.push_str("oracle FAIL building panicked\nexpect oracle\n");
+            return;
+        }
+        Ok(Err(e)) => {
+            st.count("rejected_with_error", 1);
+            let _ = writeln!(out, "# rejected: {}", e.to_string().chars().take(100).collect::<String>().replace('\n', " "));
+            out.push_str("oracle ok\nexpect oracle\n");
+            return;
+        }
+        Ok(Ok(s)) => s,
+    };
+    st.count("dfa_states", scanner.verif_dump().modes[0].dfa.states.len());
+    // one input: all 62^3 words separated by blanks (no window across a blank can match)
+    let mut input = String::with_capacity(all.len() * 4);
+    let mut exp: Vec<(usize, usize, usize)> = Vec::new();
+    for (i, w) in all.iter().enumerate() {
+        if let Some(t) = tid_of[i] {
+            exp.push((t, input.len(), input.len() + 3));
+        }
+        input.push_str(w);
+        input.push(' ');
+    }
+    st.inputs += all.len();
+    let real: Vec<(usize, usize, usize)> = scanner.find_iter(&input).take(all.len() + 2).map(|m| (m.token_type(), m.start(), m.end())).collect();
+    let mut bad: Option<String> = None;
+    if real != exp {
+        let k = real.iter().zip(exp.iter()).position(|(a, b)| a != b).unwrap_or(real.len().min(exp.len()));
+        let at = real.get(k).map(|t| t.1).unwrap_or(0).min(exp.get(k).map(|t| t.1).unwrap_or(usize::MAX));
+        let word: String = input[at..(at + 3).min(input.len())].to_string();
+        bad = Some(format!("word {:?} at byte {}: token {:?}; the longest-match rule prescribes {:?} ({} tokens, {} expected)",
+            word, at, real.get(k).filter(|t| t.1 == at), exp.get(k).filter(|t| t.1 == at), real.len(), exp.len()));
+    }
+    match bad {
+        None => out.push_str("oracle ok\nexpect oracle\n"),
+        Some(m) => {
+            let _ = writeln!(out, "oracle FAIL {}\nexpect oracle", m);
+        }
     }
 }
 
@@ -2052,10 +2150,15 @@ fn main() {
     let threads = args.threads.max(1);
     let n = args.n;
     let mut chunks: Vec<(String, Stats)> = Vec::new();
-    if args.suite == "C17" {
+    if args.suite == "C17" || args.suite == "C17M" {
         let mut o = String::new();
         let mut stt = Stats::default();
-        c17(args.seed, n, &cache, &rcache, &mut o, &mut stt);
+        if args.suite == "C17M" {
+            // (development aid) only the many-token-types family, with `n` keywords
+            c17_many_token_types(1, n, args.seed, &mut o, &mut stt);
+        } else {
+            c17(args.seed, n, &cache, &rcache, &mut o, &mut stt);
+        }
         std::fs::create_dir_all(&args.out).unwrap();
         std::fs::write(format!("{}/ops.in", args.out), &o).unwrap();
         let j = serde_json::json!({
